@@ -256,3 +256,27 @@ Example C05_example_map_filter :
   = Val (VList (map (fun v => match v with VInt z => VInt (z + 10) | _ => v end)
                     (filter (fun v => match v with VInt z => Z.ltb z 3 | _ => false end) [VInt 1; VInt 5; VInt 2]))).
 Proof. reflexivity. Qed.
+
+(* return stops at the call, throw passes the call and stops at try, break break leaves two
+   loops, a switch arm binds its own variable; the run finishes, so fuel_monotone applies to it *)
+Definition C05_example_program : expr :=
+  let l xs := EList (map (fun z => (false, EInt z)) xs) in
+  ESeq [EDecl "f" (ELam [(KPlain, "p", None)]
+                     (ESeq [EIf (EPrim PEq [EVar "p"; EInt 2]) (EReturn (Some (EInt 20))) None;
+                            EIf (EPrim PEq [EVar "p"; EInt 3]) (EThrow (EInt 30)) None;
+                            EVar "p"] false));
+        EList [(false, EFor [CIter "x" (l [1; 2; 3; 4]%Z)]
+                            (FYield (ETry (ECall (EVar "f") [(false, EVar "x")]) "e" (EPrim PAdd [EVar "e"; EInt 1]))));
+               (false, EFor [CIter "x" (l [1; 2]%Z)] (FYield (EWhile (EInt 1) (EBreak 1 (Some (EVar "x"))))));
+               (false, ESwitch (EInt 7) [(PLit 1, EInt 0); (PBind "k", EVar "k")])]] false.
+
+Example C05_example_signals :
+  snd (run 30 C05_example_program)
+  = Val (VList [VList [VInt 1; VInt 20; VInt 31; VInt 4]; VInt 1; VInt 7])
+  /\ eval 1000 init_state 0 C05_example_program = eval 30 init_state 0 C05_example_program.
+Proof.
+  split; [reflexivity|].
+  apply C05_fuel_monotone; [repeat constructor|]. 
+  assert (H : snd (run 30 C05_example_program) = Val (VList [VList [VInt 1; VInt 20; VInt 31; VInt 4]; VInt 1; VInt 7])) by reflexivity.
+  unfold run in H. rewrite H. discriminate.
+Qed.
